@@ -4,6 +4,7 @@ import (
 	"encoding/binary"
 	"fmt"
 	"math/bits"
+	"strings"
 
 	"github.com/openacid/slim/encode"
 )
@@ -29,6 +30,15 @@ func le(n int, v uint64) []byte {
 }
 
 func s16(id uint64) string {
+	// some values are long and share a long head with other values of the same length (they
+	// differ only behind the 8th byte), a few are longer than 255 bytes (two-byte length header)
+	if id%7 == 3 || id%29 == 5 {
+		head := "common-head-"
+		if id%29 == 5 {
+			head = strings.Repeat("0123456789abcdef", 17)
+		}
+		return head + string([]byte{byte(id >> 8), byte(id >> 16), byte(id >> 24), byte(id)})
+	}
 	// variable width: length 0..5 derived from the id
 	n := int(id % 6)
 	b := make([]byte, n)
